@@ -6,6 +6,7 @@ import (
 	"os"
 	"strings"
 	"sync"
+	"sync/atomic"
 	"time"
 
 	"github.com/gdamore/tcell/v2"
@@ -439,6 +440,7 @@ func C04(r *core.Run) {
 	var mu sync.Mutex
 	edges := map[string]int{}
 	seenCat := map[string]int{}
+	var hangs int32
 	for _, altOff := range []bool{false, true} {
 		if altOff {
 			os.Setenv("TCELL_ALTSCREEN", "disable")
@@ -450,6 +452,9 @@ func C04(r *core.Run) {
 			se := sessions[si]
 			led := map[string]int{}
 			for hi := 0; hi < nh; hi++ {
+				if atomic.LoadInt32(&hangs) >= 8 {
+					return // every hung shutdown costs 30 s and leaks its goroutines: stop exploring
+				}
 				rg := r.Rand("h", se.name, altOff, hi)
 				ops := c04gen(rg)
 				cfg := c04cfg{se: se, altOff: altOff, drainNil: hi%2 == 1, resizeInDrain: hi%3 == 2, readErr: hi%5 == 4, windowCall: hi%7 == 3}
@@ -466,6 +471,7 @@ func C04(r *core.Run) {
 					r.Case("")
 				}
 				if cat == "INCONCLUSIVE" {
+					atomic.AddInt32(&hangs, 1)
 					r.Inconclusive(se.name + ": " + what)
 					continue
 				}
